@@ -89,3 +89,17 @@ def _d12(f):
 @predicate('D16')
 def _d16(f):
     return f.get('kind') == 'unknown_method_unanswered' and f.get('data', {}).get('class') == 'unknown_method'
+
+
+@predicate('D4')
+def _d4(f):
+    """Covered sale refused by a decimal residue: the stated shortfall is below 1e-15 shares."""
+    if f.get('kind') != 'covered_refused':
+        return False
+    from decimal import Decimal
+    msg = f.get('data', {}).get('message') or f.get('detail', '')
+    m = re.search(r'disposal of ([0-9.]+) shares exceeds holding of ([0-9.]+)', msg)
+    if m:
+        return Decimal(0) < Decimal(m.group(1)) - Decimal(m.group(2)) < Decimal('1e-15')
+    m = re.search(r'unmatched ([0-9.]+)', msg)
+    return bool(m) and Decimal(0) < Decimal(m.group(1)) < Decimal('1e-15')
